@@ -23,10 +23,14 @@ pub fn gen_case(t: &mut Tape) -> Case {
     let mut cfg = GenCfg::general();
     cfg.bias = *t.pick(&[Bias::General, Bias::Frame, Bias::Window, Bias::Sort]);
     cfg.hazards = c16::ALL_HAZARDS.to_vec();
-    let c = c01::gen_case(t, cfg);
+    let mut c = c01::gen_case(t, cfg);
+    c.prog.surface.redundant_parens = t.chance(1, 3);
     let mut src = print::program(&c.prog);
     if t.chance(1, 2) {
         src = crate::model::lexdecor::decorate(t, &src);
+        if t.chance(1, 3) {
+            src = crate::model::lexdecor::crlf(&src);
+        }
     }
     let dialect = if t.chance(1, 8) { None } else { Some(t.choose(DIALECTS.len())) };
     match t.choose(8) {
